@@ -62,16 +62,17 @@ def gen_hooks(rng, p_any):
     return "|".join(parts) or "-"
 
 
-def gen_spec(rng, hooks_p, ctx=None):
+def gen_spec(rng, prof, ctx=None):
     """[mode, swallow, end cb, cancel cb, bad call, is coroutine function, hooks]"""
-    hooks = gen_hooks(rng, hooks_p)
+    hooks = gen_hooks(rng, prof["hooks"])
+    cbs = prof.get("cbs", CBS)
     if ctx is not None and has_unlock(hooks):
         if ctx.closing:
             hooks = "-"
         else:
             ctx.unlock_hooks = True
-    return [rng.choice("ggggrx"), rng.choice("0001"), rng.choice(CBS), rng.choice(CBS), rng.choice("00001"),
-            rng.choice("1111111110"), hooks]
+    return [rng.choice(prof.get("modes", "ggggrx")), rng.choice("0001"), rng.choice(cbs), rng.choice(cbs),
+            rng.choice("00001"), rng.choice("1111111110"), hooks]
 
 
 def has_unlock(hooks):
@@ -149,7 +150,7 @@ def gen_mkpool(rng, prof, R):
     if rng.random() < prof["badpool"]:
         size = "-1"
     if rng.random() < prof["simple"]:
-        sp = gen_spec(rng, prof["hooks"])
+        sp = gen_spec(rng, prof)
         if rng.random() > prof["badpool"]:
             sp[5] = "1"
         R.do(["mkpool", "simple", size, name] + sp)
@@ -175,7 +176,7 @@ def gen_op(rng, prof, R):
         if simple:
             R.do(on + ["start", str(rng.choice(nums))])
         else:
-            sp = gen_spec(rng, hp, ctx)
+            sp = gen_spec(rng, prof, ctx)
             R.do(on + ["apply", str(rng.choice(nums)), rng.choice(["-", "-", "-", "G", "H"])] + sp)
     elif k == "spawn2":
         if simple:
@@ -184,7 +185,7 @@ def gen_op(rng, prof, R):
             stars = rng.choice([0, 1, 2])
             n = rng.randint(0, prof.get("maxitems", 5))
             items = "".join(("1" if stars and rng.random() < 0.15 else "0") for _ in range(n)) or "-"
-            sp = gen_spec(rng, hp, ctx)
+            sp = gen_spec(rng, prof, ctx)
             R.do(on + ["map", str(stars), items, str(rng.choice(prof.get("ncs", [0, 1, 1, 2, 2, 3]))),
                        rng.choice(["-", "-", "-", "G", "H"]), sp[0], sp[1], sp[2], sp[3], sp[5], sp[6]])
     elif k == "cancel":
@@ -217,7 +218,7 @@ def gen_op(rng, prof, R):
     elif k == "gate":
         pend = [t for t, f in ctx.futs.items() if not f.done()]
         t = str(rng.choice(pend)) if pend and rng.random() < 0.9 else str(rng.randint(0, 9))
-        R.do(on + ["gate", t, "ok" if rng.random() < 0.8 else "exc"])
+        R.do(on + ["gate", t, "exc" if rng.random() < prof.get("exc_gate", 0.2) else "ok"])
     elif k == "run":
         for _ in range(rng.randint(1, 5)):
             if rng.random() < prof["nonfifo"]:
